@@ -14,6 +14,20 @@ pub struct Parsed {
     pub boundaries_ok: bool,
     pub msgs: Vec<(usize, String)>,
     pub depth: usize,
+    /// how the tree text differs from the source: see `classify_loss`
+    pub loss: Loss,
+}
+
+#[derive(Clone, Copy, PartialEq, Eq, Debug)]
+pub enum Loss {
+    /// tree text = source, or a proper prefix of it (token limit)
+    None,
+    /// whole tokens are missing and EVERY missing token is one that ty.rs `parse` popped because it cannot start a
+    /// type (neither a Name nor `[`), directly after `[` of a LIST_TYPE or after the `:` of a field / input value /
+    /// variable definition (or at the very start of the type entry point): the recorded finding, exactly
+    TypePositionDropOnly,
+    /// anything else: some other token is missing, text was added, reordered …
+    Other,
 }
 
 fn show(node: &SyntaxNode, src: &str, out: &mut String, bad: &mut bool) {
@@ -56,6 +70,55 @@ pub fn nesting_depth(node: &SyntaxNode) -> usize {
     go(node)
 }
 
+/// Aligns the tree text with the source token by token and classifies what is missing.
+pub fn classify_loss(entry: &str, src: &str, node: &SyntaxNode) -> Loss {
+    let text = node.text().to_string();
+    if src.starts_with(&text) { return Loss::None; }
+    // items of the source (tokens and lexer-error fragments tile it)
+    let mut items: Vec<(usize, String, bool, bool)> = vec![]; // start, text, is_trivia, can_start_type
+    for r in apollo_parser::Lexer::new(src) {
+        match r {
+            Ok(t) => { let k = t.kind(); use apollo_parser::TokenKind as T;
+                if k == T::Eof { continue; }
+                items.push((t.index(), t.data().to_string(), matches!(k, T::Whitespace | T::Comment | T::Comma), k == T::Name || k == T::LBracket)); }
+            Err(e) => items.push((e.index(), e.data().to_string(), false, false)),
+        }
+    }
+    // significant tokens of the tree with their parent kinds, by tree offset
+    let mut tree_toks: std::collections::HashMap<usize, (String, String)> = Default::default();
+    for el in node.descendants_with_tokens() {
+        if let SyntaxElement::Token(t) = el {
+            let a: usize = t.text_range().start().into();
+            tree_toks.insert(a, (t.text().to_string(), t.parent().map(|p| format!("{:?}", p.kind())).unwrap_or_default()));
+        }
+    }
+    // is there an alignment in which every missing item is such a drop?  (`[[]]` → `[[]`: either `]` may be the missing
+    // one; only "the first" fits the defect, so both alignments are tried where the text allows both)
+    fn drop_ok(entry: &str, prev: &Option<(String, String)>) -> bool {
+        match prev {
+            None => entry == "type",
+            Some((t, parent)) => (t == "[" && parent == "LIST_TYPE") || (t == ":" && matches!(parent.as_str(), "FIELD_DEFINITION" | "INPUT_VALUE_DEFINITION" | "VARIABLE_DEFINITION")),
+        }
+    }
+    struct Al<'a> { entry: &'a str, items: &'a [(usize, String, bool, bool)], text: &'a str, toks: &'a std::collections::HashMap<usize, (String, String)>, steps: usize }
+    impl Al<'_> {
+        fn go(&mut self, i: usize, j: usize, prev: Option<(String, String)>, dropped: bool) -> bool {
+            self.steps += 1;
+            if self.steps > 200_000 { return false; }
+            if j >= self.text.len() || i >= self.items.len() { return dropped && j == self.text.len(); }
+            let (_, data, trivia, can_start) = &self.items[i];
+            if self.text[j..].starts_with(data.as_str()) {
+                let p2 = if *trivia { prev.clone() } else { Some(self.toks.get(&j).cloned().unwrap_or((data.clone(), String::new()))) };
+                if self.go(i + 1, j + data.len(), p2, dropped) { return true; }
+            }
+            if !*trivia && !*can_start && drop_ok(self.entry, &prev) { return self.go(i + 1, j, prev, true); }
+            false
+        }
+    }
+    let mut al = Al { entry, items: &items, text: &text, toks: &tree_toks, steps: 0 };
+    if al.go(0, 0, None, false) { Loss::TypePositionDropOnly } else { Loss::Other }
+}
+
 pub fn run_parser(entry: &str, tl: Option<usize>, rl: usize, src: &str) -> Result<Parsed, String> {
     catch(|| {
         let mut p = Parser::new(src).recursion_limit(rl);
@@ -70,7 +133,7 @@ pub fn run_parser(entry: &str, tl: Option<usize>, rl: usize, src: &str) -> Resul
         show(&node, src, &mut sexpr, &mut bad);
         let errors = errs.iter().map(|e| if e.is_limit() { ('L', e.index(), 0) } else if e.is_eof() { ('F', e.index(), 0) } else { ('E', e.index(), e.data().len()) }).collect();
         let msgs = errs.iter().map(|e| (e.index(), e.message().to_string())).collect();
-        Parsed { sexpr, text: node.text().to_string(), root_kind: format!("{:?}", node.kind()), errors, rec_high: rh, tok_high: th, boundaries_ok: !bad, msgs, depth: nesting_depth(&node) }
+        Parsed { sexpr, text: node.text().to_string(), root_kind: format!("{:?}", node.kind()), errors, rec_high: rh, tok_high: th, boundaries_ok: !bad, msgs, depth: nesting_depth(&node), loss: classify_loss(entry, src, &node) }
     })
 }
 
